@@ -202,6 +202,16 @@ func introspectRemoteSchema(factory QueryerFactory, url string) (*ast.Schema, er
 
 	}
 
+	// the defaults of enum-typed input fields and arguments are enum values, not strings
+	for _, def := range schema.Types {
+		for _, field := range def.Fields {
+			setEnumDefault(schema, field.Type, field.DefaultValue)
+			for _, arg := range field.Arguments {
+				setEnumDefault(schema, arg.Type, arg.DefaultValue)
+			}
+		}
+	}
+
 	// Reformat schema
 	schemaStr := formatSchema(schema)
 
@@ -211,6 +221,23 @@ func introspectRemoteSchema(factory QueryerFactory, url string) (*ast.Schema, er
 	}
 
 	return formattedSchema, nil
+}
+
+func setEnumDefault(schema *ast.Schema, typ *ast.Type, value *ast.Value) {
+	if typ == nil || value == nil {
+		return
+	}
+	if def := schema.Types[typ.Name()]; def == nil || def.Kind != ast.Enum {
+		return
+	}
+	if value.Kind == ast.StringValue {
+		value.Kind = ast.EnumValue
+	}
+	for _, child := range value.Children {
+		if child.Value != nil && child.Value.Kind == ast.StringValue {
+			child.Value.Kind = ast.EnumValue
+		}
+	}
 }
 
 func formatSchema(schema *ast.Schema) string {
